@@ -19,7 +19,7 @@ from hsim.worlds.udp import UdpWorld
 PROPERTY = "C06"
 BYTE_EXACT = False
 CHUNK = {"quick": 24, "thorough": 60}
-PROBES = ["proxy_originated_in_window", "garbage_between_valid_same_flow", "two_sessions_same_sim", "same_ip", "reopen_after_close",
+PROBES = ["corrupt_forwarded", "corrupt_discarded", "proxy_originated_in_window", "garbage_between_valid_same_flow", "two_sessions_same_sim", "same_ip", "reopen_after_close",
           "spontaneous_emission", "packetack_swallowed", "unjudged_after_close", "late_region_registered",
           "disconnect_midstream", "eager_parsing"]
 COMPONENTS = {
@@ -45,6 +45,9 @@ def _valid_step(rng, v, r, inbound, t, cfg):
     names = G.filler_names(inbound)
     if not inbound:
         names = [n for n in names if n != "ChatFromViewer"] if rng.random() < 0.98 else ["ChatFromViewer"]
+    if cfg.get("p_corrupt") and rng.random() < 0.25:
+        names = sorted(G.OBJECT_MSGS - {"ObjectSelect", "ObjectDeselect", "RequestMultipleObjects"}) + [
+            "UUIDNameReply", "CoarseLocationUpdate", "ParcelOverlay", "ImprovedInstantMessage"]
     name = rng.choice(names) if rng.random() < 0.93 else rng.choice(
         ["RegionHandshake", "AgentMovementComplete"] if inbound else ["CompleteAgentMovement", "AgentUpdate"])
     st = {"at": t, "op": "ssend" if inbound else "vsend", "v": v, "r": r, "name": name,
@@ -55,7 +58,19 @@ def _valid_step(rng, v, r, inbound, t, cfg):
         st["channel"] = rng.choice([0, 1, 523, 525, -5])
     if rng.random() < 0.12:
         st["extra"] = bytes(rng.randrange(256) for _ in range(rng.randint(1, 4))).hex()
-    if rng.random() < 0.25:
+    if rng.random() < cfg.get("p_corrupt", 0.0) and name not in ("ChatFromViewer", "RegionHandshake", "AgentMovementComplete"):
+        # body damaged in flight (header stays valid): "cannot be decoded" -> discard cleanly, or pass through intact
+        kind = rng.choice(["truncate", "setbyte", "extend"])
+        c = {"kind": kind}
+        if kind == "truncate":
+            c["n"] = rng.randint(1, 6)
+        elif kind == "extend":
+            c["hex"] = bytes(rng.randrange(256) for _ in range(rng.randint(1, 4))).hex()
+        else:
+            c["frac"] = round(rng.random(), 3)
+            c["v"] = rng.choice([0, 1, 2, 255, rng.randrange(256)])
+        st["corrupt"] = c
+    elif rng.random() < 0.25:
         st["acks"] = rng.randint(1, 3)
     if rng.random() < 0.08:
         st["omit_trailing"] = True
@@ -73,6 +88,7 @@ def gen_plan(rng: random.Random, tier: str) -> dict:
         "p_delay": rng.choice([0.0, 0.3, 0.6]),
         "p_dup": rng.choice([0.0, 0.05, 0.2]),
         "p_garbage": rng.choice([0.0, 0.1, 0.25, 0.4]),
+        "p_corrupt": rng.choice([0.0, 0.0, 0.1, 0.3]),
         "builtin_addons": rng.random() < 0.5,
         "tail": rng.choice([0.5, 2.0, 7.0]),
     }
@@ -128,7 +144,7 @@ def gen_plan(rng: random.Random, tier: str) -> dict:
 def simplify_step(step):
     if step.get("fate"):
         yield {**step, "fate": {}}
-    for k in ("acks", "extra", "omit_trailing", "zerocoded", "reliable"):
+    for k in ("acks", "extra", "omit_trailing", "zerocoded", "reliable", "corrupt"):
         if step.get(k):
             s = dict(step)
             s.pop(k)
